@@ -417,6 +417,9 @@ func (f *frame) appendBuiltin(c *ssa.CallCommon, st *bstate) TV {
 
 func (f *frame) applyContract(fc *FuncC, pkg *types.Package, pnames, rnames []string, sig *types.Signature, args []TV, st *bstate, label string, resT types.Type, in ssa.Instruction) TV {
 	vc := f.vc
+	if pkg == nil {
+		pkg = f.pkgTypes()
+	}
 	env := &Env{f: f, vars: map[string]TV{}, st: st, pkg: pkg}
 	for i, n := range pnames {
 		if i < len(args) && n != "" && n != "_" {
@@ -776,4 +779,13 @@ func (f *frame) anchorAt(env *Env, in ssa.Instruction, after bool) {
 			}
 		}
 	}
+}
+
+func (f *frame) pkgTypes() *types.Package {
+	for fr := f; fr != nil; fr = fr.caller {
+		if fr.fn != nil && fr.fn.Pkg != nil {
+			return fr.fn.Pkg.Pkg
+		}
+	}
+	return nil
 }
